@@ -38,7 +38,51 @@ func spellingFamily(sp string) string {
 	return ""
 }
 
-func leakClass(prefix, pos string, spellings, markers []string, leaked string) string {
+// knownPosition: literal positions that the redaction does not reach by construction of the AST
+// (known findings, each a decidable predicate on the input: where the literal sits in the parsed tree).
+//
+//	under a DDL statement            → unredacted:ddl
+//	under a SHOW statement           → unredacted:show-filter
+//	GROUP_CONCAT's SEPARATOR string  → unredacted:group-concat-separator
+//	length/scale of a CONVERT/CAST type → unredacted:convert-type-length
+func knownPosition(orig *sqlast.Tree, marker string) string {
+	if orig == nil {
+		return ""
+	}
+	cls := ""
+	var rec func(t *sqlast.Tree, kinds []string)
+	rec = func(t *sqlast.Tree, kinds []string) {
+		if t.IsAtom {
+			if cls == "" && containsMarker(t.Atom, marker) {
+				for _, k := range kinds {
+					switch k {
+					case "DDL":
+						cls = "unredacted:ddl"
+					case "Show":
+						cls = "unredacted:show-filter"
+					case "ConvertType":
+						cls = "unredacted:convert-type-length"
+					}
+				}
+				if cls == "" && len(kinds) > 0 && kinds[len(kinds)-1] == "GroupConcatExpr" {
+					cls = "unredacted:group-concat-separator" // a string field of the node itself, not a value node
+				}
+			}
+			return
+		}
+		ks := append(kinds[:len(kinds):len(kinds)], t.Kind)
+		for _, k := range t.Kids {
+			rec(k, ks)
+		}
+	}
+	rec(orig, nil)
+	return cls
+}
+
+func leakClass(prefix, pos string, spellings, markers []string, leaked string, orig *sqlast.Tree) string {
+	if k := knownPosition(orig, leaked); k != "" {
+		return k
+	}
 	for i, m := range markers {
 		if m == leaked {
 			if f := spellingFamily(spellings[i]); f != "" {
@@ -49,10 +93,14 @@ func leakClass(prefix, pos string, spellings, markers []string, leaked string) s
 	return prefix + ":at-" + pos
 }
 
+// accepted counts, per template position, the generated statements the parser took
+var accepted = map[string]int{}
+
 type stmtCase struct {
-	dialect, pos, stmt   string
-	markers, spellings   []string
-	expectParse          bool
+	dialect, pos, stmt string
+	markers, spellings []string
+	expectParse        bool
+	orig               *sqlast.Tree
 }
 
 // checkStatement runs every op and oracle on one parseable statement.
@@ -60,12 +108,15 @@ func checkStatement(r *core.Run, c stmtCase, prefix string, withLogs bool) {
 	sh := hexS(c.stmt)
 	p := r.Impl("C16.parse " + c.dialect + " " + sh)
 	if !strings.HasPrefix(p, "ok ") {
+		// some positions accept only some spellings (SET NAMES wants a name, NEXT n VALUES an integer …):
+		// not a case. A template that is never accepted is a broken generator (checked at the end of the run).
 		r.Tag("template-rejected:" + c.pos + ":" + c.dialect)
-		r.Check(!c.expectParse, "harness-template-rejected", "generator statement rejected by the parser ("+c.dialect+"): "+c.stmt)
 		return
 	}
+	accepted[c.pos]++
 	tree := p[3:]
 	orig, _, _ := sqlast.Parse(strings.Fields(tree))
+	c.orig = orig
 	// every marker must be found as a literal of the parsed statement, otherwise the generator is broken
 	found := Literals(orig)
 	r.Tag(fmt.Sprintf("literals:%d", min(len(found), 9)))
@@ -80,9 +131,12 @@ func checkStatement(r *core.Run, c stmtCase, prefix string, withLogs bool) {
 		if left := Literals(norm); len(left) > 0 {
 			leaked := string(left[0])
 			cls := "redact-leak-tree:at-" + c.pos
+			if k := knownPosition(orig, leaked); k != "" {
+				cls = k
+			}
 			for i, m := range c.markers {
 				if containsMarker(left[0], m) {
-					cls = leakClass("redact-leak-tree", c.pos, c.spellings, c.markers, c.markers[i])
+					cls = leakClass("redact-leak-tree", c.pos, c.spellings, c.markers, c.markers[i], orig)
 				}
 			}
 			r.Fail(cls, fmt.Sprintf("literal %q is still in the tree after Normalize+maskLiterals: %s [%s]", leaked, c.stmt, c.dialect))
@@ -107,7 +161,7 @@ func checkStatement(r *core.Run, c stmtCase, prefix string, withLogs bool) {
 	redText := core.UnHex(red[3:])
 	for _, m := range c.markers {
 		if containsMarker(redText, m) {
-			r.Fail(leakClass("redact-leak", c.pos, c.spellings, c.markers, m), fmt.Sprintf("literal %q appears in the redacted form %q of %q [%s]", m, redText, c.stmt, c.dialect))
+			r.Fail(leakClass("redact-leak", c.pos, c.spellings, c.markers, m, orig), fmt.Sprintf("literal %q appears in the redacted form %q of %q [%s]", m, redText, c.stmt, c.dialect))
 		}
 	}
 	for _, mode := range []string{"strict", "default"} {
@@ -118,7 +172,7 @@ func checkStatement(r *core.Run, c stmtCase, prefix string, withLogs bool) {
 		}
 		for _, m := range c.markers {
 			if containsMarker(core.UnHex(f[2]), m) {
-				r.Fail(leakClass("redact-leak", c.pos, c.spellings, c.markers, m), fmt.Sprintf("literal %q appears in HandleRawSQLQuery's redacted text %q [%s]", m, core.UnHex(f[2]), c.dialect))
+				r.Fail(leakClass("redact-leak", c.pos, c.spellings, c.markers, m, orig), fmt.Sprintf("literal %q appears in HandleRawSQLQuery's redacted text %q [%s]", m, core.UnHex(f[2]), c.dialect))
 			}
 		}
 	}
@@ -161,7 +215,7 @@ func checkLog(r *core.Run, c stmtCase, cfg, level, format string, verbose bool) 
 	}
 	for _, m := range c.markers {
 		if containsMarker(logged, m) {
-			cls := leakClass("log-leak", c.pos, c.spellings, c.markers, m)
+			cls := leakClass("log-leak", c.pos, c.spellings, c.markers, m, c.orig)
 			if !c.expectParse {
 				cls = "log-leak-unparseable:" + level
 				if verbose {
@@ -235,7 +289,7 @@ func run(r *core.Run) {
 				}
 				stmt, ms, ss := Instantiate(t, d, rd, &sp)
 				r.Begin("tpl:"+d+":"+stmt, len(ms) > 0, "stream:structured", "pos:"+t.Pos, "dialect:"+d)
-				checkStatement(r, stmtCase{d, t.Pos, stmt, ms, ss, true}, "replaced", si%4 == 0)
+				checkStatement(r, stmtCase{d, t.Pos, stmt, ms, ss, true, nil}, "replaced", si%4 == 0)
 			}
 		}
 	}
@@ -248,7 +302,7 @@ func run(r *core.Run) {
 		stmt, ms, ss := Instantiate(t, d, rd, nil)
 		prefix := core.Pick(rd, []string{"replaced", "replaced", "v", "bv"})
 		r.Begin("mix:"+d+":"+stmt, len(ms) > 0, "stream:structured", "pos:"+t.Pos, "dialect:"+d)
-		checkStatement(r, stmtCase{d, t.Pos, stmt, ms, ss, true}, prefix, i%5 == 0)
+		checkStatement(r, stmtCase{d, t.Pos, stmt, ms, ss, true, nil}, prefix, i%5 == 0)
 	}
 
 	// 3. boundary: dedup threshold, name collisions, duplicated values
@@ -257,10 +311,10 @@ func run(r *core.Run) {
 			v := strings.Repeat("k", n)
 			stmt := fmt.Sprintf("select a from t where b = '%s' and c = '%s' and d = 17 and e = 17 and f = '17'", v, v)
 			r.Begin("dedup:"+d+":"+stmt, true, "stream:boundary", "pos:dedup-threshold")
-			checkStatement(r, stmtCase{d, "dedup-threshold", stmt, nil, nil, true}, "replaced", false)
+			checkStatement(r, stmtCase{d, "dedup-threshold", stmt, nil, nil, true, nil}, "replaced", false)
 			stmt2 := fmt.Sprintf("update t set a = '%s', b = '%s', c = 17, d = 17", v, v)
 			r.Begin("dedup:"+d+":"+stmt2, true, "stream:boundary", "pos:dedup-threshold")
-			checkStatement(r, stmtCase{d, "dedup-threshold", stmt2, nil, nil, true}, "replaced", false)
+			checkStatement(r, stmtCase{d, "dedup-threshold", stmt2, nil, nil, true, nil}, "replaced", false)
 		}
 	}
 	for _, stmt := range []string{
@@ -272,17 +326,21 @@ func run(r *core.Run) {
 	} {
 		for _, prefix := range []string{"replaced", "v"} {
 			r.Begin("collide:"+prefix+":"+stmt, true, "stream:boundary", "pos:name-collision")
-			checkStatement(r, stmtCase{"my", "name-collision", stmt, []string{"Zq1x1z"}, []string{"sq"}, true}, prefix, false)
+			checkStatement(r, stmtCase{"my", "name-collision", stmt, []string{"Zq1x1z"}, []string{"sq"}, true, nil}, prefix, false)
 		}
 	}
 
 	// 4. positions the AST keeps outside value nodes / under DDL nodes
 	for _, d := range []string{"my"} {
 		for _, t := range templatesFor(SpecialTemplates, d) {
-			for k := 0; k < 2; k++ {
-				stmt, ms, ss := Instantiate(t, d, rd, nil)
+			for k := 0; k < 3; k++ {
+				var force *Spelling
+				if k == 0 {
+					force = &Spellings[0] // plain single-quoted string (numeric holes fall back to a random number form)
+				}
+				stmt, ms, ss := Instantiate(t, d, rd, force)
 				r.Begin("special:"+d+":"+stmt, true, "stream:structured", "pos:"+t.Pos)
-				checkStatement(r, stmtCase{d, t.Pos, stmt, ms, ss, true}, "replaced", k == 0)
+				checkStatement(r, stmtCase{d, t.Pos, stmt, ms, ss, true, nil}, "replaced", k == 0)
 			}
 		}
 	}
@@ -299,6 +357,11 @@ func run(r *core.Run) {
 		}
 		r.Begin("broken:"+d+":"+stmt, true, "stream:malformed", "pos:broken")
 		checkBroken(r, stmtCase{dialect: d, pos: "broken", stmt: stmt, markers: ms, spellings: ss})
+	}
+	for _, t := range append(append([]Template{}, Templates...), SpecialTemplates...) {
+		if accepted[t.Pos] == 0 {
+			panic("harness: C16 generator: template " + t.Pos + " was never accepted by the parser: " + t.Text)
+		}
 	}
 	r.Extra["templates"] = len(Templates) + len(SpecialTemplates)
 	r.Extra["spellings"] = len(Spellings)
